@@ -572,8 +572,11 @@ func (eng *Engine) verifyFunction(tg target) *funcResult {
 				fc.oblige(ret, "typeinv", fmt.Sprintf("typeinv-%s%d", names[i], j+1), f, "type invariant re-established at exit", token.NoPos, true)
 			}
 		}
-		if c.HasMod {
+		if c.HasMod && c.AssumeFrame == "" {
 			fc.frameObligations(ret, envPre.with(fc.entry))
+		}
+		if c.AssumeFrame != "" {
+			fc.externsUsed["assumed frame (modifies clause not proved) of "+eng.funcDisplayName(fn)+": "+c.AssumeFrame] = true
 		}
 	}
 	for _, o := range fc.obligations {
@@ -879,6 +882,9 @@ func mergeContract(dst, src *Contract) {
 	dst.Lets = append(dst.Lets, src.Lets...)
 	dst.Inline = dst.Inline || src.Inline
 	dst.Pure = dst.Pure || src.Pure
+	if src.AssumeFrame != "" {
+		dst.AssumeFrame = src.AssumeFrame
+	}
 	dst.PureRefs = dst.PureRefs || src.PureRefs
 	dst.NoPanic = dst.NoPanic || src.NoPanic
 }
